@@ -281,6 +281,10 @@ class HTMLTranslator(html4css1.HTMLTranslator):
 
     def visit_doctest_block(self, node: nodes.Node) -> None:
         pysrc = node[0].astext()
+        if node.get('ids'):
+            # A label before the example: docutils has moved its ids onto this node,
+            # references to the label link to them.
+            self.body.append(self.starttag(node, 'span', '') + '</span>')
         if node.get('codeblock'):
             self.body.append(flatten(colorize_codeblock(pysrc)))
         else:
